@@ -269,17 +269,11 @@ DoubleSupport::modulus(
     {
         return getNaN();
     }
-    else if (long(theLHS) == theLHS && long(theRHS) == theRHS)
-    {
-        return long(theLHS) % long(theRHS);
-    }
     else
     {
-        double  theDummy;
-
-        double  theResult = divide(theLHS, theRHS);
-
-        return std::modf(theResult, &theDummy) * theRHS;
+        // The remainder of a truncating division, which
+        // is always exactly representable.
+        return std::fmod(theLHS, theRHS);
     }
 }
 
